@@ -66,8 +66,9 @@ type kOut struct {
 	Err    bool     `json:"err"`   // the operation reported an error
 	Fired  bool     `json:"fired"` // the selected write was reached
 	Callee string   `json:"callee"`
-	Call   int      `json:"call,omitempty"` // index of the call of the transaction during which the fault fired
-	Cats   []string `json:"cats"`           // categories of queries that answer differently after the rollback
+	Call   int      `json:"call,omitempty"`  // index of the call of the transaction during which the fault fired
+	Cats   []string `json:"cats"`            // categories of queries that answer differently after the rollback
+	Below  []string `json:"below,omitempty"` // call sites the extractor could not classify that lie above the failing write
 	Text   string   `json:"text,omitempty"`
 	Kinds  []string `json:"kinds,omitempty"` // kind@site
 	Detail []string `json:"detail,omitempty"`
@@ -202,6 +203,61 @@ func finish(co *caseOut) {
 		co.Tags = append(co.Tags, t)
 	}
 	sort.Strings(co.Tags)
+}
+
+// watchedSites: the call sites the disposition reader of extract-c10 could not
+// classify (ids of ./errflow_c10.json with disposition "unknown", written by
+// lib/extract_c10.py into the work directory the check runs the harness in).
+// For every fired fault the harness reports which of them lie above the
+// failing write: the check decides such a site by the sweep.
+var (
+	watchOnce sync.Once
+	watchIDs  []string
+)
+
+func watchedSites() []string {
+	watchOnce.Do(func() {
+		b, err := os.ReadFile("errflow_c10.json")
+		if err != nil {
+			return
+		}
+		var res struct {
+			Sites []struct {
+				ID      string `json:"id"`
+				Disp    string `json:"disp"`
+				Allowed string `json:"allowed"`
+			} `json:"sites"`
+		}
+		if json.Unmarshal(b, &res) != nil {
+			return
+		}
+		seen := map[string]bool{}
+		for _, s := range res.Sites {
+			if s.Disp == "unknown" && s.Allowed == "" && !seen[s.ID] {
+				seen[s.ID] = true
+				watchIDs = append(watchIDs, s.ID)
+			}
+		}
+	})
+	return watchIDs
+}
+
+// sitesBelow: which watched sites are on the chain of call sites of the failed call.
+func sitesBelow(chain []string) []string {
+	var out []string
+	for _, w := range watchedSites() {
+		alt := ""
+		if i := strings.Index(w, ">"); i >= 0 && strings.Contains(w[i:], "(") {
+			alt = w[:i] + ">(callback)"
+		}
+		for _, c := range chain {
+			if c == w || (alt != "" && c == alt) {
+				out = append(out, w)
+				break
+			}
+		}
+	}
+	return out
 }
 
 // runInChild runs one state in a worker process (this binary, -child -replay).
